@@ -391,13 +391,15 @@ def build():
                               "text": c["text"] + ((" " + SECOND_PASS[pid][0]) if SECOND_PASS.get(pid, ("",))[0] else "")
                               + ((" " + THIRD_PASS[pid][0]) if pid in THIRD_PASS else "")
                               + ((" " + FOURTH_PASS[pid][0]) if pid in FOURTH_PASS else "")
-                              + ((" " + FIFTH_PASS[pid][0]) if pid in FIFTH_PASS else ""),
-                              "design_ref": c["design"] + (", 9.5" if "9.5" not in c["design"] else "") + ", 9.8, 9.9, 9.10, 9.11"},
+                              + ((" " + FIFTH_PASS[pid][0]) if pid in FIFTH_PASS else "")
+                              + ((" " + SIXTH_PASS[pid][0]) if pid in SIXTH_PASS else ""),
+                              "design_ref": c["design"] + (", 9.5" if "9.5" not in c["design"] else "") + ", 9.8, 9.9, 9.10, 9.11, 9.12"},
             "level_note": c["note"],
             "technique": c["technique"] + (("; " + SECOND_PASS[pid][1]) if SECOND_PASS.get(pid, ("", ""))[1] else "")
             + (("; " + THIRD_PASS[pid][1]) if pid in THIRD_PASS else "")
             + (("; " + FOURTH_PASS[pid][1]) if pid in FOURTH_PASS else "")
-            + (("; " + FIFTH_PASS[pid][1]) if pid in FIFTH_PASS else ""),
+            + (("; " + FIFTH_PASS[pid][1]) if pid in FIFTH_PASS else "")
+            + (("; " + SIXTH_PASS[pid][1]) if pid in SIXTH_PASS else ""),
         })
     man = {
         "version": 1,
@@ -629,6 +631,34 @@ FOURTH_PASS = {
             "stored-result (memo) analysis, effect-skip form"),
     "C20": ("Fourth pass: every array filled inside a distributed loop and used afterwards is sum-reduced.",
             "reduction-pairing rule over all arrays written in the loop"),
+}
+
+SIXTH_PASS = {
+    "C02": ("Seeding round 6: an evolution does not read the caller's state object whose values it copied at construction; the "
+            "axis look-ups behind at() are translation covariant.", "borrowed-copy rule over the evolution classes; affine typing of ValueAxis"),
+    "C03": ("Seeding round 6: the energy of an aggregate state is of first degree in the units factor (no value converted twice).",
+            "finite evaluation with a symbolic units factor"),
+    "C05": ("Seeding round 6: no generator of the package suspends inside a units context.", "lexical rule over all yields"),
+    "C06": ("Seeding round 6: every quadrature call of the package carries the spacing of its axis.", "call-site rule over all integrals"),
+    "C08": ("Seeding round 6: the grid point found for a time does not depend on where the axis starts.",
+            "affine typing (points, displacements, pure numbers) of the ValueAxis look-ups"),
+    "C09": ("Seeding round 6: an added component replaces the data only of a function that holds nothing.",
+            "sentinel analysis of the test that guards the initialiser"),
+    "C10": ("Seeding round 6: the parallel lists of the Franck-Condon look-up table are changed in step.", "lockstep rule per method and block"),
+    "C11": ("Seeding round 6: couplings are computed in floating point whatever the element type of positions and dipoles.",
+            "element-type inheritance analysis of in-place operations"),
+    "C12": ("Seeding round 6: every element of the eigenvector matrix in the width formulas has a site label first and an "
+            "eigenstate label second.", "index-role inference per loop nest"),
+    "C13": ("Seeding round 6: where the conjugation of axes reads self.min, that property is the first point on every path.",
+            "assumption of the scalar algebra turned into an obligation"),
+    "C14": ("Seeding round 6: a temperature of zero is not taken for 'not given'.", "sentinel analysis of None-default parameters"),
+    "C16": ("Seeding round 6: the rotating frame is left at the absolute times at which the propagator entered it.", "shared rule C02-M"),
+    "C17": ("Seeding round 6: the populations handed out are of degree one in the initial populations.",
+            "degree analysis (zero / constant / linear / other) with loops to a fixed point"),
+    "C18": ("Seeding round 6: imported arrays are read into memory, never mapped onto the file.", "call-site rule over all reading calls"),
+    "C19": ("Seeding round 6: what is saved before the data flag is switched covers every part of the flag.",
+            "def-use of the saved value against the attributes set_data_flag writes"),
+    "C20": ("Seeding round 6: a block handed out on a short cut before the level branch is recorded as well.", "all-returns rule of the block helpers"),
 }
 
 
